@@ -492,4 +492,382 @@ theorem shm_step_sinv (p : Pid) (intr : Bool) (nm : Nat) (s : ShmSt) (os : OS) (
         exact shm_after_sinv_plain n i sid _ _ hi trivial (fun _ hp => by simp at hp) (fun _ hp => by simp at hp) (fun _ hp => by simp at hp)
           (fun _ hp => by simp at hp) (fun _ hp => by simp at hp)
 
+/-! ### calls in flight, actions, action lists -/
+
+theorem sem_next_seg (n : Nat) (sid : SegId) (st : SemSt) (hst : st.h.nshm) :
+    st.next ≠ .unlink (.shm n) ∧ st.next ≠ .shmctl (some sid) IPC_RMID := by
+  obtain ⟨api, sh, spc, _, _, _⟩ := st
+  constructor <;> intro e <;> cases spc <;> simp [SemSt.next] at e
+  exact hst n e
+
+def Handle.sinv (n : Nat) (sid : SegId) : Handle → Prop
+  | .sem h => h.nshm
+  | .shm m => m.sinv n sid
+
+def Call.sinv (n : Nat) (i : Ino) (sid : SegId) : Call → Prop
+  | .semNew _ s => s.h.nshm
+  | .semFree s => s.h.nshm
+  | .semOp _ s => s.h.nshm
+  | .shmNew _ s => s.sinv n i sid ∧ s.isNew = true
+  | .shmFree s => s.sinv n i sid
+  | .lockOp _ m s => s.h.nshm ∧ m.sinv n sid
+
+/-- no clean-up of segment name `n` is at its IPC_RMID / unlink -/
+def Call.squiet (n : Nat) : Call → Prop
+  | .shmNew _ s => s.squiet n
+  | .shmFree s => s.squiet n
+  | _ => True
+
+def CallOut.sinv (n : Nat) (i : Ino) (sid : SegId) : Out Call (Ret × Option (Hid × Option Handle)) → Prop
+  | .cont c' => c'.sinv n i sid
+  | .done (_, some (_, some x)) => x.sinv n sid
+  | .done _ => True
+
+theorem call_step_sinv (p : Pid) (intr : Bool) (c : Call) (os : OS) (n : Nat) (i : Ino) (sid : SegId)
+    (hb : SegBound os (.shm n) i sid) (hi : c.sinv n i sid) (hq : c.squiet n) :
+    SegBound (sysStep p intr c.next os c.name).1 (.shm n) i sid ∧ CallOut.sinv n i sid (c.after (sysStep p intr c.next os c.name).2) := by
+  cases c with
+  | semNew hid s =>
+    have hn := sem_next_seg n sid s hi
+    have hf := sem_after_file s (sysStep p intr s.next os 0).2
+    refine ⟨sysStep_segbound p intr s.next os 0 _ i sid hb hn.1 hn.2, ?_⟩
+    simp only [Call.next, Call.name, Call.after]
+    cases hr : s.after (sysStep p intr s.next os 0).2 with
+    | cont s' => intro k; rw [hf.1 s' hr]; exact hi k
+    | done x =>
+      obtain ⟨h, e⟩ := x
+      cases e with
+      | ok u => intro k; rw [hf.2 h _ hr]; exact hi k
+      | error e => trivial
+  | semFree s =>
+    have hn := sem_next_seg n sid s hi
+    have hf := sem_after_file s (sysStep p intr s.next os 0).2
+    refine ⟨sysStep_segbound p intr s.next os 0 _ i sid hb hn.1 hn.2, ?_⟩
+    simp only [Call.next, Call.name, Call.after]
+    cases hr : s.after (sysStep p intr s.next os 0).2 with
+    | cont s' => intro k; rw [hf.1 s' hr]; exact hi k
+    | done x => trivial
+  | semOp hid s =>
+    have hn := sem_next_seg n sid s hi
+    have hf := sem_after_file s (sysStep p intr s.next os 0).2
+    refine ⟨sysStep_segbound p intr s.next os 0 _ i sid hb hn.1 hn.2, ?_⟩
+    simp only [Call.next, Call.name, Call.after]
+    cases hr : s.after (sysStep p intr s.next os 0).2 with
+    | cont s' => intro k; rw [hf.1 s' hr]; exact hi k
+    | done x =>
+      obtain ⟨h, e⟩ := x
+      intro k; rw [hf.2 h _ hr]; exact hi k
+  | lockOp hid m s =>
+    have hn := sem_next_seg n sid s hi.1
+    have hf := sem_after_file s (sysStep p intr s.next os 0).2
+    refine ⟨sysStep_segbound p intr s.next os 0 _ i sid hb hn.1 hn.2, ?_⟩
+    simp only [Call.next, Call.name, Call.after]
+    cases hr : s.after (sysStep p intr s.next os 0).2 with
+    | cont s' => exact ⟨by intro k; rw [hf.1 s' hr]; exact hi.1 k, hi.2⟩
+    | done x =>
+      obtain ⟨h, e⟩ := x
+      refine ⟨hi.2.1, ?_⟩
+      intro ps hps
+      simp only [Option.some.injEq] at hps
+      subst hps
+      intro k; rw [hf.2 _ _ hr]; exact hi.1 k
+  | shmNew hid s =>
+    have := shm_step_sinv p intr s.h.name s os n i sid hb hi.1 hq
+    refine ⟨this.1, ?_⟩
+    have h2 := this.2
+    simp only [Call.next, Call.name, Call.after]
+    cases hr : s.after (sysStep p intr s.next os s.h.name).2 with
+    | cont s' => rw [hr] at h2; exact ⟨h2.1, by rw [h2.2]; exact hi.2⟩
+    | done x =>
+      obtain ⟨h, e⟩ := x
+      rw [hr] at h2
+      cases e with
+      | ok u => exact h2 hi.2 rfl
+      | error e => trivial
+  | shmFree s =>
+    have := shm_step_sinv p intr 0 s os n i sid hb hi hq
+    refine ⟨this.1, ?_⟩
+    have h2 := this.2
+    simp only [Call.next, Call.name, Call.after]
+    cases hr : s.after (sysStep p intr s.next os 0).2 with
+    | cont s' => rw [hr] at h2; exact h2.1
+    | done x => trivial
+
+/-- name `n` is bound to segment `sid`; every live struct and every machine in flight respects it -/
+structure SegInv (n : Nat) (i : Ino) (sid : SegId) (g : G) : Prop where
+  bound : SegBound g.os (.shm n) i sid
+  hs : ∀ h p x, g.hs h = some (p, x) → x.sinv n sid
+  calls : ∀ t c, g.calls t = some c → c.sinv n i sid
+
+def SegQuiet (n : Nat) (g : G) : Prop := ∀ t c, g.calls t = some c → c.squiet n
+
+theorem seginv_step (n : Nat) (i : Ino) (sid : SegId) (g : G) (t : Tid) (intr : Bool)
+    (hi : SegInv n i sid g) (hq : SegQuiet n g) : SegInv n i sid (g.step t intr) := by
+  cases hc : g.calls t with
+  | none => rw [step_none g t intr hc]; exact hi
+  | some c =>
+    have := call_step_sinv (g.pidOf t) intr c g.os n i sid hi.bound (hi.calls t c hc) (hq t c hc)
+    refine ⟨by rw [step_os g t intr c hc]; exact this.1, ?_, ?_⟩
+    · have h2 := this.2
+      intro h p x hx
+      simp only [G.step, hc] at hx
+      cases hr : c.after (sysStep (g.pidOf t) intr c.next g.os c.name).2 with
+      | cont c' => simp only [hr, G.setCall] at hx; exact hi.hs h p x hx
+      | done y =>
+        obtain ⟨ret, nh⟩ := y
+        rw [hr] at h2
+        cases nh with
+        | none => simp only [hr, G.setCall, G.setRet] at hx; exact hi.hs h p x hx
+        | some z =>
+          obtain ⟨hid, ox⟩ := z
+          cases ox with
+          | none =>
+            simp only [hr, G.setCall, G.setRet, G.setHandle] at hx
+            split at hx
+            · cases hx
+            · exact hi.hs h p x hx
+          | some x' =>
+            simp only [hr, G.setCall, G.setRet, G.setHandle] at hx
+            split at hx
+            · simp only [Option.some.injEq, Prod.mk.injEq] at hx
+              rw [← hx.2]; exact h2
+            · exact hi.hs h p x hx
+    · have h2 := this.2
+      intro t' c' hc'
+      simp only [G.step, hc] at hc'
+      cases hr : c.after (sysStep (g.pidOf t) intr c.next g.os c.name).2 with
+      | cont c'' =>
+        rw [hr] at h2
+        simp only [hr, G.setCall] at hc'
+        split at hc'
+        · simp only [Option.some.injEq] at hc'; rw [← hc']; exact h2
+        · exact hi.calls t' c' hc'
+      | done y =>
+        obtain ⟨ret, nh⟩ := y
+        have key : ∀ g' : G, g'.calls = (fun t'' => if t'' = t then none else g.calls t'') → g'.calls t' = some c' → c'.sinv n i sid := by
+          intro g' hg' h'
+          rw [hg'] at h'
+          simp only at h'
+          split at h'
+          · cases h'
+          · exact hi.calls t' c' h'
+        cases nh with
+        | none => simp only [hr] at hc'; exact key _ rfl hc'
+        | some z =>
+          obtain ⟨hid, ox⟩ := z
+          cases ox <;> (simp only [hr] at hc'; exact key _ rfl hc')
+
+theorem seginv_kill (n : Nat) (i : Ino) (sid : SegId) (g : G) (p : Pid) (hi : SegInv n i sid g) : SegInv n i sid (g.kill p) := by
+  refine ⟨?_, ?_, ?_⟩
+  · have hb := hi.bound
+    refine ⟨hb.file, hb.key, ?_, ?_, hb.sidlt, hb.uniq, hb.inj, hb.ilt, hb.noreuse⟩
+    · simp only [G.kill, OS.kill]; split
+      · exact hb.alive
+      · simp [hb.unmarked, hb.alive]
+    · simp only [G.kill, OS.kill]; split
+      · exact hb.unmarked
+      · simp [hb.unmarked]
+  · intro h q x hx
+    simp only [G.kill] at hx
+    split at hx
+    · split at hx
+      · cases hx
+      · rename_i q' x' hq' _
+        simp only [Option.some.injEq, Prod.mk.injEq] at hx
+        exact hi.hs h q' x (by rw [hq', hx.2])
+    · cases hx
+  · intro t c hc
+    simp only [G.kill] at hc
+    split at hc
+    · cases hc
+    · exact hi.calls t c hc
+
+theorem seginv_setRet (n : Nat) (i : Ino) (sid : SegId) (g : G) (t : Tid) (r : Ret) (hi : SegInv n i sid g) : SegInv n i sid (g.setRet t r) :=
+  ⟨hi.bound, hi.hs, hi.calls⟩
+
+theorem seginv_setCall (n : Nat) (i : Ino) (sid : SegId) (g : G) (t : Tid) (c : Call) (hi : SegInv n i sid g) (hc : c.sinv n i sid) :
+    SegInv n i sid (g.setCall t (some c)) := by
+  refine ⟨hi.bound, hi.hs, ?_⟩
+  intro t' c' h'
+  simp only [G.setCall] at h'
+  split at h'
+  · simp only [Option.some.injEq] at h'; rw [← h']; exact hc
+  · exact hi.calls t' c' h'
+
+theorem seginv_setHandle (n : Nat) (i : Ino) (sid : SegId) (g : G) (h : Hid) (v : Option (Pid × Handle)) (hi : SegInv n i sid g)
+    (hv : ∀ p x, v = some (p, x) → x.sinv n sid) : SegInv n i sid (g.setHandle h v) := by
+  refine ⟨hi.bound, ?_, hi.calls⟩
+  intro h' p x hx
+  simp only [G.setHandle] at hx
+  split at hx
+  · exact hv p x hx
+  · exact hi.hs h' p x hx
+
+theorem seginv_startOut (n : Nat) (i : Ino) (sid : SegId) (g : G) (t : Tid) (o : Out Call (Ret × Option (Hid × Option Handle)))
+    (hi : SegInv n i sid g) (ho : CallOut.sinv n i sid o) : SegInv n i sid (startOut g t o) := by
+  cases o with
+  | cont c => exact seginv_setCall n i sid g t c hi ho
+  | done y =>
+    obtain ⟨ret, nh⟩ := y
+    cases nh with
+    | none => exact seginv_setRet n i sid g t ret hi
+    | some z =>
+      obtain ⟨hid, ox⟩ := z
+      cases ox with
+      | none => exact seginv_setHandle n i sid _ hid none (seginv_setRet n i sid g t ret hi) (by intro p x e; cases e)
+      | some x =>
+        refine seginv_setHandle n i sid _ hid _ (seginv_setRet n i sid g t ret hi) ?_
+        intro p x' e
+        simp only [Option.some.injEq, Prod.mk.injEq] at e
+        rw [← e.2]; exact ho
+
+theorem semFreeStart_sinv (n : Nat) (i : Ino) (sid : SegId) (s : PSem) (hs : s.nshm) : CallOut.sinv n i sid (semFreeStart s) := by
+  simp only [semFreeStart]
+  split
+  · rename_i st hst
+    have hfile : st.h.file = s.file := by
+      simp only [SemSt.startClean, SemSt.afterClean] at hst
+      (repeat' split at hst) <;> simp only [Out.cont.injEq, reduceCtorEq] at hst <;> subst hst <;> rfl
+    intro k; rw [hfile]; exact hs k
+  · trivial
+
+theorem shmFreeStart_sinv (n : Nat) (i : Ino) (sid : SegId) (m : PShm) (hm : m.sinv n sid) : CallOut.sinv n i sid (shmFreeStart m) := by
+  simp only [shmFreeStart]
+  have := shm_startClean_sinv n i sid ({ isNew := false, h := m, pc := .kDt } : ShmSt) false hm.2
+    (by intro hne _; have := hm.1; simp only at hne; simpa [hne] using this) (by intro e; cases e) rfl
+  split
+  · rename_i st hst
+    rw [hst] at this
+    exact this.1
+  · trivial
+
+theorem seginv_start (n : Nat) (i : Ino) (sid : SegId) (g : G) (t : Tid) (op : Op) (hi : SegInv n i sid g) : SegInv n i sid (g.start t op) := by
+  unfold G.start
+  split
+  · exact seginv_setRet n i sid g t _ hi
+  · cases op with
+    | newSem h n' init m =>
+      simp only
+      split
+      · exact seginv_setRet n i sid g t _ hi
+      · refine seginv_setCall n i sid g t _ hi ?_
+        intro k e; cases e
+    | newShm h n' size ro =>
+      simp only
+      split
+      · exact seginv_setRet n i sid g t _ hi
+      · refine seginv_setCall n i sid g t _ hi ⟨⟨(by intro ps e; cases e), trivial, fun _ => trivial, ?_⟩, rfl⟩
+        simp only; split <;> simp
+    | acq h =>
+      simp only
+      split
+      · rename_i s hs
+        exact seginv_setCall n i sid g t _ hi (hi.hs h _ _ (handleOf_hs g t h _ hs))
+      · exact seginv_setRet n i sid g t _ hi
+    | rel h =>
+      simp only
+      split
+      · rename_i s hs
+        exact seginv_setCall n i sid g t _ hi (hi.hs h _ _ (handleOf_hs g t h _ hs))
+      · exact seginv_setRet n i sid g t _ hi
+    | lock h =>
+      simp only
+      split
+      · rename_i m hm
+        have := hi.hs h _ _ (handleOf_hs g t h _ hm)
+        split
+        · rename_i s hs
+          exact seginv_setCall n i sid g t _ hi ⟨this.2 s hs, this⟩
+        · exact seginv_setRet n i sid g t _ hi
+      · exact seginv_setRet n i sid g t _ hi
+    | unlock h =>
+      simp only
+      split
+      · rename_i m hm
+        have := hi.hs h _ _ (handleOf_hs g t h _ hm)
+        split
+        · rename_i s hs
+          exact seginv_setCall n i sid g t _ hi ⟨this.2 s hs, this⟩
+        · exact seginv_setRet n i sid g t _ hi
+      · exact seginv_setRet n i sid g t _ hi
+    | own h =>
+      simp only
+      split
+      · rename_i s hs
+        have := hi.hs h _ _ (handleOf_hs g t h _ hs)
+        refine seginv_setRet n i sid _ t _ (seginv_setHandle n i sid g h _ hi ?_)
+        intro p x e
+        simp only [Option.some.injEq, Prod.mk.injEq] at e
+        rw [← e.2]
+        exact this
+      · rename_i m hm
+        have := hi.hs h _ _ (handleOf_hs g t h _ hm)
+        refine seginv_setRet n i sid _ t _ (seginv_setHandle n i sid g h _ hi ?_)
+        intro p x e
+        simp only [Option.some.injEq, Prod.mk.injEq] at e
+        rw [← e.2]
+        refine ⟨this.1, ?_⟩
+        intro ps hps
+        simp only [Option.map_eq_some_iff] at hps
+        obtain ⟨s0, hs0, rfl⟩ := hps
+        exact this.2 s0 hs0
+      · exact seginv_setRet n i sid g t _ hi
+    | free h =>
+      simp only
+      split
+      · rename_i s hs
+        have := hi.hs h _ _ (handleOf_hs g t h _ hs)
+        exact seginv_startOut n i sid _ t _ (seginv_setHandle n i sid g h none hi (by intro p x e; cases e)) (semFreeStart_sinv n i sid s this)
+      · rename_i m hm
+        have := hi.hs h _ _ (handleOf_hs g t h _ hm)
+        exact seginv_startOut n i sid _ t _ (seginv_setHandle n i sid g h none hi (by intro p x e; cases e)) (shmFreeStart_sinv n i sid m this)
+      · exact seginv_setRet n i sid g t _ hi
+    | size h => simp only; split <;> exact seginv_setRet n i sid g t _ hi
+    | rd h off => simp only; (repeat' split) <;> exact seginv_setRet n i sid g t _ hi
+    | wr h off b =>
+      simp only
+      cases hh : g.handleOf t h with
+      | none => exact seginv_setRet n i sid g t _ hi
+      | some x =>
+        cases x with
+        | sem s0 => exact seginv_setRet n i sid g t _ hi
+        | shm m =>
+          simp only
+          cases hos : ((addrOpt m.addr).bind fun a => g.os.store (g.pidOf t) a off b) with
+          | none => exact seginv_setRet n i sid g t _ hi
+          | some os' =>
+            simp only
+            refine seginv_setRet n i sid _ t _ ⟨?_, hi.hs, hi.calls⟩
+            cases ha : addrOpt m.addr with
+            | none => simp [ha] at hos
+            | some a =>
+              simp only [ha, Option.bind_some, OS.store] at hos
+              (repeat' split at hos) <;> simp only [Option.some.injEq, reduceCtorEq] at hos
+              subst hos
+              refine segbound_setSeg g.os _ i sid _ _ hi.bound ?_
+              intro e
+              rw [e]
+              exact ⟨hi.bound.alive, hi.bound.unmarked⟩
+
+theorem seginv_exec (n : Nat) (i : Ino) (sid : SegId) (g : G) (a : Action) (hi : SegInv n i sid g) (hq : SegQuiet n g) :
+    SegInv n i sid (exec g a) := by
+  cases a with
+  | start t op => exact seginv_start n i sid g t op hi
+  | step t intr => exact seginv_step n i sid g t intr hi hq
+  | kill p => exact seginv_kill n i sid g p hi
+
+/-- no clean-up of segment name `n` reaches its IPC_RMID / unlink in between -/
+def SegQuietRun (n : Nat) : G → List Action → Prop
+  | _, [] => True
+  | g, a :: as => SegQuiet n g ∧ SegQuietRun n (exec g a) as
+
+theorem seginv_execAll (n : Nat) (i : Ino) (sid : SegId) (as : List Action) :
+    ∀ g, SegInv n i sid g → SegQuietRun n g as → SegInv n i sid (execAll g as) := by
+  induction as with
+  | nil => intro g h _; exact h
+  | cons a as ih =>
+    intro g h hq
+    simp only [execAll, List.foldl_cons]
+    exact ih (exec g a) (seginv_exec n i sid g a h hq.1) hq.2
+
 end PV.SysV
